@@ -255,7 +255,7 @@ class Attribute(_BaseAttribute):
         out = np.full((container_size, self.elemsize), self.default_value, dtype= self.type.dtype)
         for i,x in self._data.items():
             out[i,:] = x
-        return np.squeeze(out)
+        return out[:,0] if self.elemsize==1 else out
 
     def clear(self):
         """
@@ -337,7 +337,7 @@ class ArrayAttribute(_BaseAttribute):
             yield self._data[i]
 
     def as_array(self, *args):
-        return np.squeeze(self._data)
+        return self._data[:,0] if self.elemsize==1 else self._data
     
     def clear(self):
         """
